@@ -485,6 +485,7 @@ package mcp
 //@   ensures @a-next-cursor-only-when-one-more-item-was-seen calls(enc) <= 1 && (calls(enc) == 1 ==> len(callArg(setFunc, 1, 1)) == pageSize && local(count) == pageSize + 1) && (result.1 == nil && calls(setFunc) == 1 && local(count) == pageSize + 1 ==> calls(enc) == 1)
 //@   ensures @the-next-cursor-names-the-last-item-of-the-page calls(enc) == 1 ==> calls(uid) == 1 && callArg(enc, 1, 0) == callResult(uid, 1, 0) && callArg(uid, 1, 0) == at(filled, callArg(setFunc, 1, 1)[pageSize - 1])
 //@   snapshot filled after call setFunc
+//@   ensures @a-page-is-handed-back-in-the-result-it-was-given result.1 == nil ==> result.0 == res
 
 // The client-side iterators (Tools, Prompts, Resources, ResourceTemplates) page through a listing exactly as manual
 // paging would: the first request carries the caller's params, every later request carries the next cursor of the
@@ -920,36 +921,45 @@ package mcp
 // The client side of "beats caches": when a list-changed / resource-updated notification arrives, the session's cached
 // answers for that method (that URI) are dropped before the application's handler hears about the change, so a list
 // or read issued from the handler (or after it) cannot be answered from a cache filled before the change.
-//@ func (*Client).callToolChangedHandler [C18]
+// GetSession hands back the session the request was built around (as the interface value wrapping that pointer).
+//@ func (*ClientRequest[P]).GetSession [C18, C02]
+//@   requires r != nil
+//@   nopanic
+//@   ensures @the-session-of-the-request result == iface(r.Session)
+//@ func (*Client).callToolChangedHandler [C18, C02]
+//@   nopanic
 //@   track invalidate as drop
 //@   track GetSession as sess
 //@   callee h: modifies *
-//@   requires c != nil && req != nil
+//@   requires c != nil && req != nil && req.Session != nil   // the dispatcher builds every request around its session
 //@   modifies *
 //@   ensures @cache-dropped calls(sess) == 1 && typeIs(callResult(sess, 1, 0), *ClientSession) ==> calls(drop) == 1
 //@   assert at call h: @cache-dropped-before-the-application-hears calls(sess) == 1 && (typeIs(callResult(sess, 1, 0), *ClientSession) ==> calls(drop) == 1)
-//@ func (*Client).callPromptChangedHandler [C18]
+//@ func (*Client).callPromptChangedHandler [C18, C02]
+//@   nopanic
 //@   track invalidate as drop
 //@   track GetSession as sess
 //@   callee h: modifies *
-//@   requires c != nil && req != nil
+//@   requires c != nil && req != nil && req.Session != nil   // the dispatcher builds every request around its session
 //@   modifies *
 //@   ensures @cache-dropped calls(sess) == 1 && typeIs(callResult(sess, 1, 0), *ClientSession) ==> calls(drop) == 1
 //@   assert at call h: @cache-dropped-before-the-application-hears calls(sess) == 1 && (typeIs(callResult(sess, 1, 0), *ClientSession) ==> calls(drop) == 1)
-//@ func (*Client).callResourceChangedHandler [C18]
+//@ func (*Client).callResourceChangedHandler [C18, C02]
+//@   nopanic
 //@   track invalidate as drop
 //@   track GetSession as sess
 //@   callee h: modifies *
-//@   requires c != nil && req != nil
+//@   requires c != nil && req != nil && req.Session != nil   // the dispatcher builds every request around its session
 //@   modifies *
 //@   ensures @caches-dropped calls(sess) == 1 && typeIs(callResult(sess, 1, 0), *ClientSession) ==> calls(drop) == 2
 //@   assert at call h: @caches-dropped-before-the-application-hears calls(sess) == 1 && (typeIs(callResult(sess, 1, 0), *ClientSession) ==> calls(drop) == 2)
-//@ func (*Client).callResourceUpdatedHandler [C18]
+//@ func (*Client).callResourceUpdatedHandler [C18, C02]
+//@   nopanic
 //@   track invalidateKey as drop
 //@   track GetSession as sess
 //@   snapshot got after call GetSession
 //@   callee h: modifies *
-//@   requires c != nil && req != nil
+//@   requires c != nil && req != nil && req.Session != nil   // the dispatcher builds every request around its session
 //@   modifies *
 //@   ensures @cached-read-dropped calls(sess) == 1 && typeIs(callResult(sess, 1, 0), *ClientSession) && at(got, req.Params) != nil ==> calls(drop) == 1 && callArg(drop, 1, 1) == at(got, req.Params.URI)
 //@   assert at call h: @cached-read-dropped-before-the-application-hears calls(sess) == 1 && (typeIs(callResult(sess, 1, 0), *ClientSession) && at(got, req.Params) != nil ==> calls(drop) == 1)
@@ -1877,3 +1887,66 @@ package mcp
 //@   assert at call handleNotify: @every-delivery-uses-the-fan-out-context calls(bound) == 1 && $0 == callResult(bound, 1, 0) && $1 == method
 //@   ensures @every-session-gets-its-attempt len(sessions) > 0 ==> calls(deliver) == len(sessions)
 //@   loop 1: invariant @one-attempt-per-session-so-far calls(deliver) == $idx
+
+// C02, "instead of ... crashing the process": a method registered with missingParamsOK reaches its handler with nil
+// params when the message carries none (or JSON null), so each such handler must run without a run-time panic on a
+// request whose Params is nil. Only the receiver, the request and its session are assumed to exist (the dispatcher
+// builds them; see newClientMethodInfo/newServerMethodInfo).
+//@ func (*Client).callElicitationCompleteHandler [C02]
+//@   nopanic
+//@   callee h: modifies *
+//@   requires c != nil && req != nil && req.Session != nil
+// (since the F19 fix this one notification is registered without missingParamsOK, so newMethodInfo$1 rejects absent
+// or null params before the handler runs; the link between the method table and this handler is not verified)
+//@   assume req.Params != nil
+//@   modifies *
+//@ func (*Client).callSubscriptionsAckHandler [C02]
+//@   nopanic
+//@   requires c != nil
+//@ func (*Server).callRootsListChangedHandler [C02]
+//@   nopanic
+//@   callee h: modifies *
+//@   requires s != nil && req != nil
+//@   modifies *
+// The per-request accessors read the request's _meta (decoding into fresh values) or fall back to the session's
+// initialize params under the session lock: they write nothing that existed before the call (assumed, not verified).
+//@ func (*ServerRequest[P]).ProtocolVersion
+//@   trusted
+//@   modifies extern
+//@ func (*ServerRequest[P]).ClientCapabilities
+//@   trusted
+//@   modifies extern
+//@ func (*ServerRequest[P]).ClientInfo
+//@   trusted
+//@   modifies extern
+//@ func (*Server).discover [C02]
+//@   nopanic
+//@   requires s != nil && req != nil && req.Session != nil
+//@   modifies *
+//@ func (*ServerSession).cancel [C02]
+//@   nopanic
+//@ func (*ServerSession).ping [C02]
+//@   nopanic
+//@ func (*ClientSession).ping [C02]
+//@   nopanic
+// The four list methods make their own params when the request carries none.
+//@ func (*Server).listTools [C02]
+//@   nopanic
+//@   requires s != nil && req != nil
+//@   assume fsRep(s.tools) && s.opts.PageSize > 0   // server invariants: NewServer builds the sets and a positive page size; add/remove keep fsRep (their contracts)
+//@   modifies *
+//@ func (*Server).listPrompts [C02]
+//@   nopanic
+//@   requires s != nil && req != nil
+//@   assume fsRep(s.prompts) && s.opts.PageSize > 0   // server invariants: NewServer builds the sets and a positive page size; add/remove keep fsRep (their contracts)
+//@   modifies *
+//@ func (*Server).listResources [C02]
+//@   nopanic
+//@   requires s != nil && req != nil
+//@   assume fsRep(s.resources) && s.opts.PageSize > 0   // server invariants: NewServer builds the sets and a positive page size; add/remove keep fsRep (their contracts)
+//@   modifies *
+//@ func (*Server).listResourceTemplates [C02]
+//@   nopanic
+//@   requires s != nil && req != nil
+//@   assume fsRep(s.resourceTemplates) && s.opts.PageSize > 0   // server invariants: NewServer builds the sets and a positive page size; add/remove keep fsRep (their contracts)
+//@   modifies *
